@@ -22,13 +22,17 @@ def _conc(v, lo, hi):
             return c
     raise AssertionError('outside the precondition')
 
-def _table(fnames, flevels, cells, flags, n_exp):
-    """cells: per experiment, per factor, per trial: index into levels+[''];  flags: trial selection."""
+def _table(fnames, flevels, cells, flags, n_exp, reverse_columns=False):
+    """cells: per experiment, per factor, per trial: index into levels+[''];  flags: trial selection.
+    reverse_columns: the experiment dicts list their columns in the opposite order from `factors`, after an extra
+    column that is not selected."""
     factors = [sp.Factor(n, list(lv)) for n, lv in zip(fnames, flevels)]
     exps = []
     for e in range(n_exp):
         d = {}
-        for fi, n in enumerate(fnames):
+        if reverse_columns:
+            d['zz'] = ['k'] * len(flags)
+        for fi, n in (reversed(list(enumerate(fnames))) if reverse_columns else enumerate(fnames)):
             opts = list(flevels[fi]) + ['']
             d[n] = [opts[c] for c in cells[e][fi]]
         exps.append(d)
@@ -96,6 +100,7 @@ def cases(tier):
         ('colliding_names', ['side', 'cue'], [['left', 'left upper'], ['upper arrow', 'arrow']], 2, 1),
         ('one_factor', ['A'], [['x', 'y', 'z']], 3, 1),
         ('two_experiments', ['A'], [['x', 'y']], 2, 2),
+        ('columns_reversed', ['A', 'B'], [['x', 'y'], ['x', 'y']], 2, 1),
     ]
     if tier == 'thorough':
         shapes += [('colliding_names3', ['side', 'cue'], [['left', 'left upper'], ['upper arrow', 'arrow']], 3, 1),
@@ -113,7 +118,7 @@ def cases(tier):
                 per_f.append('[' + ', '.join(f'_conc(c{e}_{fi}_{t}, 0, {len(fl[fi])})' for t in range(T)) + ']')
             build.append('[' + ', '.join(per_f) + ']')
         impl = f"cells = [{', '.join(build)}]\nflags = [{', '.join('bool(' + a + ')' for a in flagargs)}]\n" \
-               f"return _table({fn!r}, {fl!r}, cells, flags, {E})"
+               f"return _table({fn!r}, {fl!r}, cells, flags, {E}, {name == 'columns_reversed'})"
         pre = ' and '.join([f'0 <= {a} <= {len(fl[fi])}' for e in range(E) for fi in range(len(fn)) for t in range(T)
                             for a in [f'c{e}_{fi}_{t}']] + ['(' + ' or '.join(flagargs) + ')'])
         out.append(Case(name, sig, I(impl), I('return ' + pre), I(f'return _check(_ret, {fn!r}, {fl!r})'),
